@@ -357,7 +357,7 @@ def shrink_case(ctx, cid, c, first_failure=None, budget=120):
     return [c[0], c[1], c[2], " ".join(w + body + q)]
 
 
-def run_impl(ctx, seed, n, sub, replay_file=None, engines="mem", nb=0, ne=0, nm=0, nes=0, nm0=0):
+def run_impl(ctx, seed, n, sub, replay_file=None, engines="mem", nb=0, ne=0, nm=0, nes=0, nm0=0, nel=0):
     d = os.path.join(ctx.run_dir, sub)
     shutil.rmtree(d, ignore_errors=True)
     os.makedirs(d)
@@ -366,7 +366,7 @@ def run_impl(ctx, seed, n, sub, replay_file=None, engines="mem", nb=0, ne=0, nm=
     if replay_file:
         cmd = "%s -replay %s -out %s -port %d" % (binp, replay_file, d, port)
     else:
-        cmd = "%s -seed %d -n %d -nm %d -nm0 %d -nb %d -ne %d -nes %d -engines %s -out %s -port %d" % (binp, seed, n, nm, nm0, nb, ne, nes, engines, d, port)
+        cmd = "%s -seed %d -n %d -nm %d -nm0 %d -nb %d -ne %d -nes %d -nel %d -engines %s -out %s -port %d" % (binp, seed, n, nm, nm0, nb, ne, nes, nel, engines, d, port)
     rc, out, dt = sh(cmd, cwd=d, timeout=3000)
     if rc == 3:
         # the live server (child process) did not come up or died: time/port dependent, one retry
@@ -421,16 +421,16 @@ def run(ctx):
                             f.write(line if line.endswith("\n") else line + "\n")
             runs.append(dict(sub="corpus", replay=cf))
         if quick:
-            runs.append(dict(sub="fresh", n=260, nm=21, nm0=30, nb=6, ne=6, nes=1, engines="mem"))
+            runs.append(dict(sub="fresh", n=240, nm=21, nm0=30, nb=6, ne=4, nes=1, nel=2, engines="mem"))
         else:
-            runs.append(dict(sub="fresh", n=3300, nm=240, nm0=330, nb=90, ne=45, nes=6, engines="mem,pebble,rocksdb"))
+            runs.append(dict(sub="fresh", n=3200, nm=240, nm0=330, nb=90, ne=40, nes=6, nel=6, engines="mem,pebble,rocksdb"))
             runs.append(dict(sub="fresh-pebble-live", n=0, nb=30, ne=15, engines="pebble"))
 
     all_mism, all_fail, total, evals, hist_all, samples, distinct = [], [], 0, 0, {}, [], set()
     m0_fail = []
     for r in runs:
         d, err = run_impl(ctx, ctx.seed, r.get("n", 0), r["sub"], replay_file=r.get("replay"),
-                          engines=r.get("engines", "mem"), nb=r.get("nb", 0), ne=r.get("ne", 0), nm=r.get("nm", 0), nes=r.get("nes", 0), nm0=r.get("nm0", 0))
+                          engines=r.get("engines", "mem"), nb=r.get("nb", 0), ne=r.get("ne", 0), nm=r.get("nm", 0), nes=r.get("nes", 0), nm0=r.get("nm0", 0), nel=r.get("nel", 0))
         if d is None and err.startswith("INCONCLUSIVE") and r.get("nb", 0) > 0 and not r.get("replay"):
             ctx.notes.append("live server inconclusive twice (start/ports); live cases of run %s skipped" % r["sub"])
             if r.get("n", 0) == 0:
@@ -515,7 +515,10 @@ def run(ctx):
              "the case (oracle additionally: the sender's deliveries follow the source order). class e2esnap = the same with one "
              "snapshot hand-over by the real logSyncerSM.PrepareSnapshot (backup lookup answered by a stand-in, NotifyTransferSnap / "
              "status polling / NotifyApplySnap through the proxy, which also plays the file transfer or lets it fail once). "
-             "kind M = three bare replicas fed the same committed entries, replica 2 restarted.",
+             "kind M = three bare replicas fed the same committed entries, replica 2 restarted. Learner scenarios (leg E, two real "
+             "logSyncerSM instances): a stand-by learner (ignore mode) takes over from a forwarding learner that died with a backlog "
+             "while the receiver was stalled; a learner snapshot (GetSnapshot) requested with a backlog, then the learner restarts "
+             "from its last successful snapshot.",
         histogram=hist_all,
         mismatches=len(all_mism),
         samples=samples[:4],
